@@ -24,6 +24,10 @@ import (
 
 var byteSliceType = reflect.TypeFor[[]byte]()
 
+// maxShowDepth is the maximum nesting depth of a value shown in JavaScript
+// and JSON contexts. A cyclic value exceeds it.
+const maxShowDepth = 1000
+
 // renderer is used by te Show and Text instructions to render template files.
 type renderer struct {
 
@@ -471,6 +475,16 @@ func showInCSSString(env *env, out io.Writer, value any) error {
 
 // showInJS shows value in JavaScript context.
 func showInJS(env *env, out io.Writer, value any) error {
+	return showInJSDepth(env, out, value, 0)
+}
+
+// showInJSDepth is showInJS for a value nested depth levels into the shown value.
+// It returns an error if the value is cyclic or too deeply nested.
+func showInJSDepth(env *env, out io.Writer, value any, depth int) error {
+
+	if depth > maxShowDepth {
+		return fmt.Errorf("cannot show value of type %s: it is cyclic or nested too deeply", env.TypeOf(reflect.ValueOf(value)))
+	}
 
 	w := newStringWriter(out)
 
@@ -545,7 +559,7 @@ func showInJS(env *env, out io.Writer, value any) error {
 				_, err = w.WriteString(",")
 			}
 			if err == nil {
-				err = showInJS(env, out, v.Index(i).Interface())
+				err = showInJSDepth(env, out, v.Index(i).Interface(), depth+1)
 			}
 		}
 		if err == nil {
@@ -557,7 +571,7 @@ func showInJS(env *env, out io.Writer, value any) error {
 			s = "null"
 			break
 		}
-		return showInJS(env, out, v.Elem().Interface())
+		return showInJSDepth(env, out, v.Elem().Interface(), depth+1)
 	case reflect.Struct:
 		t := v.Type()
 		n := t.NumField()
@@ -596,7 +610,7 @@ func showInJS(env *env, out io.Writer, value any) error {
 					_, err = w.WriteString(`":`)
 				}
 				if err == nil {
-					err = showInJS(env, w, value.Interface())
+					err = showInJSDepth(env, w, value.Interface(), depth+1)
 				}
 				first = false
 			}
@@ -652,7 +666,7 @@ func showInJS(env *env, out io.Writer, value any) error {
 				_, err = w.WriteString(`":`)
 			}
 			if err == nil {
-				err = showInJS(env, out, keyPair.val)
+				err = showInJSDepth(env, out, keyPair.val, depth+1)
 			}
 		}
 		if err == nil {
@@ -670,6 +684,16 @@ func showInJS(env *env, out io.Writer, value any) error {
 
 // showInJSON shows value in JSON context.
 func showInJSON(env *env, out io.Writer, value any) error {
+	return showInJSONDepth(env, out, value, 0)
+}
+
+// showInJSONDepth is showInJSON for a value nested depth levels into the shown value.
+// It returns an error if the value is cyclic or too deeply nested.
+func showInJSONDepth(env *env, out io.Writer, value any, depth int) error {
+
+	if depth > maxShowDepth {
+		return fmt.Errorf("cannot show value of type %s: it is cyclic or nested too deeply", env.TypeOf(reflect.ValueOf(value)))
+	}
 
 	w := newStringWriter(out)
 
@@ -751,7 +775,7 @@ func showInJSON(env *env, out io.Writer, value any) error {
 				_, err = w.WriteString(",")
 			}
 			if err == nil {
-				err = showInJSON(env, out, v.Index(i).Interface())
+				err = showInJSONDepth(env, out, v.Index(i).Interface(), depth+1)
 			}
 		}
 		if err == nil {
@@ -763,7 +787,7 @@ func showInJSON(env *env, out io.Writer, value any) error {
 			s = "null"
 			break
 		}
-		return showInJSON(env, out, v.Elem().Interface())
+		return showInJSONDepth(env, out, v.Elem().Interface(), depth+1)
 	case reflect.Struct:
 		t := v.Type()
 		n := t.NumField()
@@ -802,7 +826,7 @@ func showInJSON(env *env, out io.Writer, value any) error {
 					_, err = w.WriteString(`":`)
 				}
 				if err == nil {
-					err = showInJSON(env, w, value.Interface())
+					err = showInJSONDepth(env, w, value.Interface(), depth+1)
 				}
 				first = false
 			}
@@ -858,7 +882,7 @@ func showInJSON(env *env, out io.Writer, value any) error {
 				_, err = w.WriteString(`":`)
 			}
 			if err == nil {
-				err = showInJSON(env, out, keyPair.val)
+				err = showInJSONDepth(env, out, keyPair.val, depth+1)
 			}
 		}
 		if err == nil {
